@@ -765,4 +765,66 @@ theorem generated_Record_messages_eq (fuel : Nat) (errText : Go.Error → Bytes)
         cases hca : containsAny fwc res <;> simp [hca]
       | error err => exact ⟨_, rfl, by simp⟩
 
+/-! ## chunk-size tokens: decimal digits only
+
+RFC 6242: `chunk-size = [1-9][0-9]*`. The decoder (strconv.Atoi + the `> 0` guard) is more lenient in
+exactly two ways — one leading `+`, and leading zeros — and in no other: a size token that any other
+integer syntax would accept (`0x5d`, `0b101`, `0o135`, `9_3`, white space, exponents, non-ASCII
+digits, a `-` sign) is a parse error, and a zero-padded token is read in base ten (`011` is eleven). -/
+
+theorem parseDecAux_digits (ds : Bytes) : ∀ (acc n : Nat), parseDecAux acc ds = some n →
+    ∀ b ∈ ds, isDigit b = true := by
+  induction ds with
+  | nil => intro _ _ _ b hb; simp at hb
+  | cons d t ih =>
+    intro acc n h b hb
+    simp only [parseDecAux] at h
+    split at h
+    · rename_i hd
+      simp only [List.mem_cons] at hb
+      rcases hb with rfl | hb
+      · exact hd
+      · exact ih _ _ h b hb
+    · simp at h
+
+theorem parseDec_digits (ds : Bytes) (n : Nat) (h : parseDec ds = some n) :
+    ds ≠ [] ∧ ∀ b ∈ ds, isDigit b = true := by
+  cases ds with
+  | nil => simp [parseDec] at h
+  | cons d t => exact ⟨by simp, parseDecAux_digits (d :: t) 0 n (by simpa [parseDec] using h)⟩
+
+/-- every size token the decoder accepts is an optional `+` followed by one or more ASCII decimal
+digits, read in base ten, with a positive value -/
+theorem parseSize_decimal_only (hd : Bytes) (n : Nat) (h : parseSize hd = some n) :
+    ∃ ds, (hd = ds ∨ hd = 43 :: ds) ∧ ds ≠ [] ∧ (∀ b ∈ ds, isDigit b = true) ∧
+      parseDec ds = some n ∧ 0 < n := by
+  have key : ∀ ds : Bytes, ((parseDec ds).bind fun m => if m = 0 then none else some m) = some n →
+      ds ≠ [] ∧ (∀ b ∈ ds, isDigit b = true) ∧ parseDec ds = some n ∧ 0 < n := by
+    intro ds hds
+    cases hp : parseDec ds with
+    | none => simp [hp] at hds
+    | some m =>
+      simp only [hp, Option.bind_some] at hds
+      split at hds
+      · simp at hds
+      · rename_i hm
+        simp only [Option.some.injEq] at hds
+        subst hds
+        obtain ⟨h1, h2⟩ := parseDec_digits ds m hp
+        exact ⟨h1, h2, rfl, Nat.pos_of_ne_zero hm⟩
+  unfold parseSize at h
+  split at h
+  · simp at h
+  · rename_i ds
+    exact ⟨ds, Or.inr rfl, key ds h⟩
+  · exact ⟨hd, Or.inl rfl, key hd h⟩
+
+/-- the tokens of the seeded change C02p and their relatives are rejected; a zero-padded token is
+decimal -/
+example : parseSize (ofStr "0x5d") = none ∧ parseSize (ofStr "0X5D") = none ∧ parseSize (ofStr "0b101") = none
+    ∧ parseSize (ofStr "0o135") = none ∧ parseSize (ofStr "9_3") = none ∧ parseSize (ofStr "-5") = none
+    ∧ parseSize (ofStr " 5") = none ∧ parseSize (ofStr "5 ") = none ∧ parseSize (ofStr "1e2") = none
+    ∧ parseSize (ofStr "٩") = none ∧ parseSize (ofStr "011") = some 11 ∧ parseSize (ofStr "+3") = some 3 := by
+  decide +kernel
+
 end Scrapli.Netconf.C02
